@@ -2,8 +2,8 @@
 
 CHECK = {
     "harnesses": [
-        {"exe": "c08_dataset", "flavour": "plain", "cases": (60000, 1200000), "procs": (6, 12), "subs": ["views"]},
-        {"exe": "c08_dataset", "flavour": "asan", "cases": (8000, 200000), "procs": (2, 4), "subs": ["views"]},
+        {"exe": "c08_dataset", "flavour": "plain", "cases": (45000, 1200000), "procs": (6, 12), "subs": ["views", "iterators"]},
+        {"exe": "c08_dataset", "flavour": "asan", "cases": (8000, 200000), "procs": (2, 4), "subs": ["views", "iterators"]},
     ],
     "min_nontrivial": (8000, 50000),
     "timeout": (900, 7200),
@@ -15,7 +15,10 @@ CHECK = {
              "(stored value cast to the storage type, missing => NaN/-1, documented flatten encodings, product, a reference 3x3 filter); "
              "every buffer is pre-filled with a sentinel so an unwritten view is detected; out-of-range sample/feature indices (N, -1, N+7, "
              "N+64 / -1, F, F+3) must raise an exception; the asan flavour additionally turns any out-of-bounds read into a failure. "
-             "Non-trivial: >= 2 generated feature kinds, at least one missing and one present value, an index list with a repeat and a "
+             "Sub-check `iterators`: the multi-threaded select / flatten / targets iterators (1..16 workers, batch 1..2n, cached and "
+             "uncached) deliver every feature / every sample range exactly once, with a worker id below the concurrency, and exactly the "
+             "values of the direct views (non-trivial: >= 2 features, >= 2 workers, >= 2 batches). "
+             "Non-trivial (views): >= 2 generated feature kinds, at least one missing and one present value, an index list with a repeat and a "
              "query after a drop or shuffle. Distinct = distinct serialised cases (64-bit hash)."),
     "assumptions": ["the harness-side reference (dataset_gen.h data_spec_t + model_value) is correct",
                     "undrop() after shuffle() / unshuffle() after drop(): either the original or the last altered view is accepted (DESIGN.md 4.3)",
